@@ -348,7 +348,12 @@ def check_burn(case):
     so = {k: (np.max(np.abs(np.asarray(A[k], float))) + 1e-300) * fac(f[k], S) for k in A.dtype.names}
     D = P.get('D', P.get('D2', P.get('D_CJ_2')))
     so['burntime'] = (np.max(np.abs(bt)) + np.max(np.abs(X)) / D) * S[2]
-    compare(o, A, B, f, S, 1e-9, regime=case['which'], scale_of=so)
+    rtol = 1e-9
+    if case['which'] == 'k3':
+        # path around the obstacle: R arccos(.) with an argument that reaches 1 - 1e-16 for points behind the sphere: the arc is only defined to
+        # ~ sqrt(eps) = 1.5e-8 rad there (same allowance as in C07 / C09: 6e-8 R / D in time)
+        rtol = 1e-9 + 6e-8 * (P['R'] / P['D']) / (so['burntime'] / S[2])
+    compare(o, A, B, f, S, rtol, regime=case['which'], scale_of=so)
     o.label(case['which'])
     o.nontrivial = nontrivial(S)
     return o
